@@ -191,10 +191,11 @@ pub fn format_buf(args: Vec<Rc<Object>>) -> Result<Collector, String> {
                 // specifiers such as '{0}', '{1}', '{0:10}', '{0<5}', '{1:0>5}' etc
                 // 'args' also includes the format specifier. 'args.len()'
                 // So, 'idx_print' should be the next element in args vector.
-                let idx_print = curr_spec_idx.parse::<usize>().map_err(|e| e.to_string())? + 1;
-                if idx_print >= args.len() {
+                let idx_spec = curr_spec_idx.parse::<usize>().map_err(|e| e.to_string())?;
+                if idx_spec >= args.len() - 1 {
                     return Err(String::from("positional argument index exceeded the count"));
                 }
+                let idx_print = idx_spec + 1;
                 format_obj(
                     &mut collector,
                     &curr_spec_padding,
